@@ -58,9 +58,26 @@ func genFrag(h *H) {
 	nb := n
 	for i := 0; i < nb; i++ {
 		e := encs[h.rng.Intn(len(encs))]
-		data := h.rng.Bytes(h.rng.Intn(3*e.ibl + 2))
+		data := h.content(h.rng.Intn(3*e.ibl + 2))
 		if i%5 == 0 {
 			data = h.rng.Bytes(e.ibl * (1 + h.rng.Intn(3)))
+		}
+		if i%5 == 1 {
+			// blocks whose decoded value has leading zero bytes, each after a block without any (the
+			// decoder left-pads such blocks; its buffers are reused from block to block)
+			data = nil
+			for b := 0; b < 2+h.rng.Intn(3); b++ {
+				blk := h.rng.Bytes(e.ibl)
+				if b%2 == 1 {
+					z := 1 + h.rng.Intn(e.ibl)
+					copy(blk, make([]byte, z))
+				} else {
+					for j := range blk {
+						blk[j] |= 1
+					}
+				}
+				data = append(data, blk...)
+			}
 		}
 		txt := []byte(e.enc.EncodeToString(data))
 		switch h.rng.Intn(8) {
@@ -172,6 +189,11 @@ func genFrag(h *H) {
 				h.tag("frag:" + stackBin + "-armored")
 				h.Run(Case{Op: "frag", A: withA(map[string]string{"stack": stackBin + "-armored", "input": hx([]byte(txt)), "want": hx(p.msg)})})
 			}
+			if p.name == "enc" || p.name == "sc" {
+				h.tag("frag:classify-decrypt")
+				h.Run(Case{Op: "frag", A: withA(map[string]string{"stack": "classify-decrypt", "input": hx([]byte(txt)), "want": hx(p.msg), "twocut": tc})})
+				h.Run(Case{Op: "frag", A: withA(map[string]string{"stack": "classify-decrypt", "input": hx(p.wire), "want": hx(p.msg), "twocut": tc})})
+			}
 			// mutated armor text
 			b := []byte(txt)
 			b[h.rng.Intn(len(b))] = []byte{'.', ' ', '!', 'z', '\n'}[h.rng.Intn(5)]
@@ -187,7 +209,7 @@ func genFrag(h *H) {
 		}
 		// plain basex streams
 		for _, e := range []string{"b62", "b58"} {
-			data := h.rng.Bytes(h.rng.Intn(200))
+			data := h.content(h.rng.Intn(200))
 			s := []byte(encByName(e).enc.EncodeToString(data))
 			h.Run(Case{Op: "frag", A: map[string]string{"stack": "basex", "enc": e, "input": hx(s), "want": hx(data), "seed": hx(h.rng.Bytes(8)), "twocut": "0"}})
 			if len(s) > 0 {
@@ -207,7 +229,7 @@ func genFrag(h *H) {
 
 func init() {
 	campaigns["C13"] = campaign{
-		rule: "cases: (1) punctuatedReader and chunkReader (exported under -tags verif) driven call by call with planned underlying read results (whole, one-byte, random, 4096-aligned, data delivered together with EOF or with an I/O error incl. whitespace-only slices, sentences around the 8192-byte limit) and caller buffer sizes from {1,2,3,7,31,32,33,43,4096}: every Read result equals the Coq state machine's, the pieces are the input cut at the periods, ReadUntilPunctuation depends on the bytes only; (2) whole decoding stacks (binary and armored: decrypt, verify, signcryption open, dearmor, basex decoder) on genuine, mutated, re-flowed and whitespace-padded inputs under 16 fragmentations each plus exhaustive two-cut splits: same success/failure, same bytes and identities on success, prefix-related released bytes on failure, and agreement with the model's denotation; (3) write-side: covered by every sender case with random Write splits (bytes equal the model's one-shot output) and the armor encoder; (4) a long message streamed through encrypt and decrypt streams with the live heap sampled. Distinct by (op,args) hash.",
+		rule: "cases: (1) punctuatedReader and chunkReader (exported under -tags verif) driven call by call with planned underlying read results (whole, one-byte, random, 4096-aligned, data delivered together with EOF or with an I/O error incl. whitespace-only slices, sentences around the 8192-byte limit) and caller buffer sizes from {1,2,3,7,31,32,33,43,4096}: every Read result equals the Coq state machine's, the pieces are the input cut at the periods, ReadUntilPunctuation depends on the bytes only; (2) whole decoding stacks (binary and armored: decrypt, verify, signcryption open, dearmor, basex decoder, classify-and-decrypt) on genuine, mutated, re-flowed and whitespace-padded inputs under 16 fragmentations each plus exhaustive two-cut splits: same success/failure, same bytes and identities on success, prefix-related released bytes on failure, and agreement with the model's denotation; (3) write-side: covered by every sender case with random Write splits (bytes equal the model's one-shot output) and the armor encoder; (4) a long message streamed through encrypt and decrypt streams with the live heap sampled. Distinct by (op,args) hash.",
 		gen:  genFrag,
 	}
 }
